@@ -74,8 +74,13 @@ namespace sw { namespace universal {
 		internal::bitblock<nbits> fraction_without_hidden_bit;
 		int fbit = nbits - 1;
 		for (int i = msb - 1; i >= 0; --i) {
-			fraction_without_hidden_bit.set(fbit, w2.at(i));
-			--fbit;
+			if (fbit >= 0) {
+				fraction_without_hidden_bit.set(static_cast<unsigned>(fbit), w2.at(static_cast<unsigned>(i)));
+				--fbit;
+			}
+			else if (w2.at(static_cast<unsigned>(i))) {
+				fraction_without_hidden_bit.set(0, true); // bits below the fraction width only matter as a sticky bit
+			}
 		}
 		internal::value<nbits> v;
 		v.set(sign, _scale, fraction_without_hidden_bit, isZero, isInf, isNan);
